@@ -407,6 +407,22 @@ macro_rules! prog_semaphore_impl {
     let mut hs = Vec::new();
     for t in 1..=k {
         let role = roles.as_ref().and_then(|r| r.get(t - 1).copied());
+        // [n, 3]: a task that only uses try_acquire(n), three times, giving the permits back each time
+        if consts["Roles"].as_array().and_then(|a| a.get(t - 1)).map_or(false, |r| r[1].as_u64() == Some(3)) {
+            let n = role.map_or(1, |r| r.0);
+            hs.push(shuttle::thread::spawn(move || {
+                for _ in 0..3 {
+                    let (g, i) = call(json!({"op": "try_acquire", "n": n}), || s.try_acquire(n));
+                    set_res(i, json!({"res": if g.is_some() { "some" } else { "none" }}));
+                    if let Some(g) = g {
+                        shuttle::thread::yield_now();
+                        call(json!({"op": "drop_releaser", "a": n}), move || drop(g));
+                    }
+                    shuttle::thread::yield_now();
+                }
+            }));
+            continue;
+        }
         if releases.get(t - 1).copied().unwrap_or(false) {
             let n = role.map_or(1, |r| r.0);
             hs.push(shuttle::thread::spawn(move || {
